@@ -32,8 +32,8 @@ EXPLANATION = (
 def _field_from_param(repo, ctx, cls_init, pname):
     """field assigned from constructor parameter pname: self.<F> = pname"""
     for s in ast.walk(cls_init):
-        if isinstance(s, ast.Assign) and isinstance(s.value, ast.Name) and s.value.id == pname:
-            for t in s.targets:
+        for t, v in U.assign_pairs(s):
+            if isinstance(v, ast.Name) and v.id == pname:
                 c = U.chain(t)
                 if c and c[0] == 'self' and len(c) == 2:
                     return c[1]
@@ -523,13 +523,15 @@ def r55_window(repo, ctx):
     calls = [c for c in U.calls(f) if U.call_attr(c) == 'solve' and U.call_name(c) != 'self.solve']
     ok = False
     for c in calls:
-        if len(c.args) >= 3 and U.chain(c.args[0]) == ('self', 'initialTime') and U.chain(c.args[2]) == ('self', 'finalTime'):
+        a0, a2 = U.call_arg(c, 0, 't0'), U.call_arg(c, 2, 'tf')
+        if a0 is not None and a2 is not None and U.chain(a0) == ('self', 'initialTime') and U.chain(a2) == ('self', 'finalTime'):
             ok = True
     sti = [c for c in U.calls(f) if U.call_name(c) == 'self.setTimeInfo']
     ok_sti = False
     simname = U.params(f)[1]
     for c in sti:
-        if len(c.args) == 2 and isinstance(c.args[1], ast.Name) and c.args[1].id == simname:
+        a1 = U.call_arg(c, 1, U.params(repo.func(GM, 'GenericModel.setTimeInfo'))[2])
+        if isinstance(a1, ast.Name) and a1.id == simname:
             ok_sti = True
     ctx.check(ok and ok_sti, 'R5.5', GM, q, calls[0] if calls else f, 'solver is run from initialTime to finalTime with simTime as given by the caller',
               'GenericModel.solve does not pass (initialTime, X0, finalTime) to the solver / setTimeInfo(t, simTime)')
